@@ -145,8 +145,6 @@ func (m *observerManager) AddObserver(o *Observer, w *World) {
 		panic("observer callback must be set via Do before registering")
 	}
 
-	o.id = m.pool.Get()
-
 	o.hasComps, o.hasWith, o.hasWithout = false, false, false
 	// The masks may still hold the component IDs of the world the observer was registered in before.
 	o.compsMask, o.withMask, o.withoutMask = bitMask{}, bitMask{}, bitMask{}
@@ -191,6 +189,10 @@ func (m *observerManager) AddObserver(o *Observer, w *World) {
 		}
 	}
 
+	// Take the ID only now: resolving the components above can panic
+	// (new component type in a locked world, non-relation component in a relation observer),
+	// and the observer must remain usable after that.
+	o.id = m.pool.Get()
 	m.indices[o.id] = uint32(len(m.observers[o.event]))
 	m.observers[o.event] = append(m.observers[o.event], &o.observerData)
 	m.hasObservers[o.event] = true
